@@ -73,6 +73,33 @@ MUTANTS = [
     ("cwd_project_root", "task_types/base.py", "        return pathlib.Path(ctx.project_root, self._identifier.path)", "        return pathlib.Path(ctx.project_root)", ["C07"]),
     ("options_before_args", "execution/ops/run_task_executable.py", "[run, self._args.serialize_cmdline(), self._options.serialize_cmdline()]", "[run, self._options.serialize_cmdline(), self._args.serialize_cmdline()]", ["C07"]),
     ("deps_reversed", "task_types/base.py", "        for dep_identifier in self.deps:\n            path =", "        for dep_identifier in reversed(self.deps):\n            path =", ["C07"]),
+    ("validator_skips_list_items", "parsing/validation.py", "                if not all(item_valid):", "                if False:", ["C15"]),
+    ("options_value_unchecked", "utils/run_options.py", "                raise RunOptionsNonPrimitiveValue(identifier=identifier, key=key)", "                pass", ["C15"]),
+    ("generic_exception_unmapped", "parsing/task_loader.py", "        except Exception as ex:\n            run_err = TaskParseError(error_details=str(ex))\n            run_err.add_file_context(file_path=self._to_project_path(cond_file_path))\n            raise run_err from ex\n        finally:", "        finally:", ["C15"]),
+    ("dup_task_name_allowed", "parsing/task_loader.py", "            if raw_task[\"name\"] in self._tasks:\n                raise DuplicateTaskName(task_name=raw_task[\"name\"])\n", "", ["C15"]),
+    ("include_outside_allowed", "parsing/task_loader.py", "            raise IncludeFileNotInProject(included_file=candidate_path) from ex", "            pass", ["C15"]),
+    ("combine_dup_names_allowed", "task_types/combine.py", "            if dep.name in task_names:", "            if False:", ["C15"]),
+    ("group_chain_wrong_prev", "task_types/stdlib/run_experiment_group.py", "            prev_experiment_identifier = experiment_identifier\n", "            prev_experiment_identifier = prev_experiment_identifier or experiment_identifier\n", ["C19"]),
+    ("group_drops_parallelizable", "task_types/stdlib/run_experiment_group.py", "                parallelizable=experiment.parallelizable,\n", "", ["C19"]),
+    ("group_deps_after_chain", "task_types/stdlib/run_experiment_group.py", "experiment_deps = [*task_deps, prev_experiment_identifier]", "experiment_deps = [prev_experiment_identifier, *task_deps]", ["C19"]),
+    ("isancestor_swapped", "utils/git.py", "                candidate_ancestor_hash,\n                commit_hash,\n", "                commit_hash,\n                candidate_ancestor_hash,\n", ["C05"]),
+    ("distance_prefers_far", "task_types/run.py", "                if selected_version is None or dist < closest_distance:", "                if selected_version is None or dist > closest_distance:", ["C05"]),
+    ("tie_prefers_older", "task_types/run.py", "                    and v.timestamp > selected_version.timestamp", "                    and v.timestamp < selected_version.timestamp", ["C05"]),
+    ("fallback_with_foreign_commits", "task_types/run.py", "            len(null_commit_versions) == len(existing_versions)\n            and len(null_commit_versions) > 0", "            len(null_commit_versions) > 0", ["C05"]),
+    ("atleast_equal_is_older", "task_types/run.py", "        if self._most_relevant_version.commit_hash == at_least_commit:\n", "        if False:\n", ["C05"]),
+    ("atleast_no_peel", "cli/run.py", "\"{}^{{commit}}\".format(", "\"{}\".format(", ["C05"]),
+    ("combine_links_empty_too", "execution/ops/combine_outputs.py", "                or not any(True for _ in dep_dir.iterdir())\n", "", ["C18"]),
+    ("combine_overwrites_conflict", "execution/ops/combine_outputs.py", "                    raise CombineOutputFileConflict(output_file=str(copy_into))", "                    import shutil; shutil.rmtree(copy_into, ignore_errors=True) if copy_into.is_dir() else copy_into.unlink()", ["C18"]),
+    ("combine_keeps_old_link", "execution/ops/combine_outputs.py", "                if copy_into.is_symlink():\n                    copy_into.unlink()\n", "                if copy_into.is_symlink():\n                    continue\n", ["C18"]),
+    ("abort_no_terminate", "execution/executor.py", "        except ConductorAbort:\n            self._inflight_ops.terminate_processes()\n", "        except ConductorAbort:\n", ["C16"]),
+    ("abort_unbound_process", "execution/ops/run_task_executable.py", "        process = None\n        try:", "        try:", ["C16"]),
+    ("gc_relative_to_cwd", "cli/gc.py", "    try:\n        return str(path.relative_to(cwd))\n    except ValueError:\n        return str(path)", "    return str(path.relative_to(cwd))", ["C17"]),
+    ("root_from_topmost", "context.py", "            if maybe_config_path.is_file():\n                return cls(project_root=path)", "            if maybe_config_path.is_file():\n                found = path\n        if 'found' in dir():\n                return cls(project_root=found)", []),
+    ("ident_dollar_anchor", "task_identifier.py", "_NAME_REGEX = re.compile(\"^{}\\\\Z\".format(IDENTIFIER_GROUP))", "_NAME_REGEX = re.compile(\"^{}$\".format(IDENTIFIER_GROUP))", ["C20"]),
+    ("ident_allows_dot", "task_identifier.py", "IDENTIFIER_GROUP = \"[a-zA-Z0-9_-]+\"", "IDENTIFIER_GROUP = \"[a-zA-Z0-9_.-]+\"", ["C20"]),
+    ("loader_skip_cycle_check", "parsing/task_index.py", "                if identifier in curr_path:\n                    # The user's dependency graph contains a cycle", "                if False:\n                    # The user's dependency graph contains a cycle", ["C14"]),
+    ("loader_visited_on_push", "parsing/task_index.py", "                    if dep in visited_identifiers:\n                        continue\n                    identifiers_to_load.append((dep, 0))", "                    if dep in visited_identifiers or dep in curr_path and False:\n                        continue\n                    visited_identifiers.add(dep)\n                    identifiers_to_load.append((dep, 0))", ["C14"]),
+    ("roots_count_once", "parsing/task_index.py", "                    if dep_id in root_candidates:\n                        root_candidates[dep_id] += 1", "                    if dep_id in root_candidates and dep_id in visited:\n                        root_candidates[dep_id] += 1", ["C14"]),
     ("num_tasks_per_dequeue", "execution/planning/planner.py", "                num_tasks_to_run += 1\n", "                num_tasks_to_run += 1 + len(lt.deps) * 0 + (1 if isinstance(lt.task, Group) else 0)\n", ["C02"]),
 ]
 
